@@ -76,6 +76,13 @@ Checkout == /\ E.ev = "checkout"
             /\ st' = [st EXCEPT ![E.c] = "idle"]
             /\ UNCHANGED <<sc, pausedM, fresh, halfres, cpool, sawp, must>>
 
+\* a new transaction whose first statement was read inside the loop of the previous one: it did not pass wait_paused
+InLoop == /\ E.ev = "inloop"
+          /\ LET v == pausedM[cpool[E.c]] IN
+               /\ Flag(v, "transaction_started_while_paused", [client |-> E.c, pool |-> cpool[E.c]])
+               /\ seen' = seen \cup K({<<v, "transaction_started_while_paused">>})
+          /\ UNCHANGED <<sc, pausedM, fresh, halfres, cpool, st, sawp, must>>
+
 Gone == /\ E.ev = "gone" /\ st' = [st EXCEPT ![E.c] = "idle"]
         /\ UNCHANGED <<sc, seen, pausedM, fresh, halfres, cpool, sawp, must>>
 
@@ -109,7 +116,7 @@ End == /\ E.ev = "end"
 
 Step == /\ l <= Len(Rec) /\ l' = l + 1
         /\ (Reset \/ Arrive \/ Created \/ ReadEv \/ Woken \/ Checkout \/ Gone \/ PauseEv \/ ResumeStore \/ ResumeNotify
-            \/ PoolCreated \/ End)
+            \/ PoolCreated \/ End \/ InLoop)
 TSpec == TInit /\ [][Step]_tv
 Accepted == /\ PrintT(<<"MATCHED", ToString(TLCGet("stats").diameter - 1)>>)
             /\ TLCGet("stats").diameter - 1 = Len(Rec)
